@@ -92,6 +92,14 @@ def infos (minRel : Int) : List Member → Option (List (Member × Int) × Int)
       | some s => some ((m, e) :: l, s)
     | _, _ => none
 
+/-- `effective_stake * per` for every applicable validator, in order; any overflow fails the whole call -/
+def scaleEach (per : Int) : List (Member × Int) → Option (List (Member × Int × Int))
+  | [] => some []
+  | (m, e) :: rest =>
+    match dMul e per, scaleEach per rest with
+    | some x, some r => some ((m, e, x) :: r)
+    | _, _ => none
+
 /-- per-validator emission amounts `effective_stake * (E / stake_sum)` (in set order) -/
 def emissions (E minRel : Int) (set : List Member) : Option (List (Member × Int × Int)) :=
   match infos minRel set with
@@ -100,15 +108,22 @@ def emissions (E minRel : Int) (set : List Member) : Option (List (Member × Int
   | some (l, sum) =>
     match dDiv E sum with
     | none => none
-    | some perXrd =>
-      l.mapM (fun (me : Member × Int) =>
-        match dMul me.2 perXrd with
-        | none => none
-        | some em => some (me.1, me.2, em))
+    | some perXrd => scaleEach perXrd l
 
 def sumList : List Int → Int
   | [] => 0
   | x :: xs => x + sumList xs
+
+/-- `as_proposer + effective_stake * per` for every applicable validator -/
+def rewardEach (per : Int) : List (Member × Int × Int) → Option (List (Member × Int))
+  | [] => some []
+  | (m, e, p) :: rest =>
+    match dMul e per, rewardEach per rest with
+    | some asMember, some r =>
+      match dAdd p asMember with
+      | some t => some ((m, t) :: r)
+      | none => none
+    | _, _ => none
 
 /-- reward split: `as_proposer + effective_stake * ((vault - Σ proposer) / Σ effective)`;
     input: (member, effective stake, proposer reward) for the applicable validators -/
@@ -121,14 +136,7 @@ def rewards (vault : Int) (l : List (Member × Int × Int)) : Option (List (Memb
     let per? : Option Int := if totalEff = 0 then some 0 else dDiv claimable totalEff
     match per? with
     | none => none
-    | some per =>
-      l.mapM (fun (x : Member × Int × Int) =>
-        match dMul x.2.1 per with
-        | none => none
-        | some asMember =>
-          match dAdd x.2.2 asMember with
-          | none => none
-          | some t => some (x.1, t))
+    | some per => rewardEach per l
 
 /-! ### validator set selection -/
 
